@@ -800,10 +800,16 @@ class ParallelProcess(Process):
 
     @property
     def schema(self) -> Optional[Schema]:
-        return self.run_command('schema')
+        # Cached in the parent: the views are rebuilt after structural
+        # updates, also while this process has an update in flight, and
+        # reading the schema must not need a command then.
+        if self._schema is None:
+            self._schema = self.run_command('schema')
+        return self._schema
 
     @schema.setter
     def schema(self, value: Optional[Schema]) -> None:
+        self._schema = value
         self.run_command('set_schema', (value,))
 
     def merge_overrides(self, override: Schema) -> None:
